@@ -210,6 +210,12 @@ pub fn drive(args: &[String]) {
         let nb = rng.gen_range(1..=2usize);
         let mut b: Vec<Vec<i64>> = (0..nr).map(|_| (0..nb).map(|_| rng.gen_range(-lim..=lim)).collect()).collect();
         if lim <= 1000 { let x: Vec<i64> = (0..nc).map(|_| rng.gen_range(-3..=3)).collect(); for i in 0..nr { b[i][0] = (0..nc).map(|j| m[i][j] * x[j]).sum(); } }
+        // every fourth system: columns of very different magnitude (a zero or unit column next to one near 10^9): bounds
+        // computed from the right-hand side must use its largest column
+        if it % 4 == 3 {
+            b = (0..nr).map(|i| vec![if rng.gen_bool(0.5) { 0 } else { (i == 0) as i64 }, rng.gen_range(-1_000_000_000..=1_000_000_000i64), rng.gen_range(-lim..=lim)]).collect();
+            if rng.gen_bool(0.5) { for r in b.iter_mut() { r.swap(0, 1); } }
+        }
         emit_all(&mut sink, &m, &b, "random");
         if nr <= 4 && nc <= 4 { echelon_fixed(&mut sink, &m, &b); }
     }
